@@ -135,6 +135,42 @@ def truncated(dummy: int) -> bool:
     return True
 
 
+def truncated_native():
+    """every proper prefix of every accepted vector (up to 3 per class), natively, through the judge of P['MODE']"""
+    problems = []
+    thorough = P.get('TIER') == 'thorough'
+    saved = dict(P)
+    for cls, seeds in registry.seeded_classes():
+        name = registry.class_name(cls)
+        accepted = []
+        for data in seeds:
+            try:
+                cls.parse_exact_size(data)
+                accepted.append(data)
+            except Exception:  # pylint: disable=broad-except
+                continue
+        accepted.sort(key=lambda item: (len(item), item))
+        for data in accepted[:3 if thorough else 1]:
+            if len(data) > (400 if thorough else 120):
+                continue
+            P.update(CLASS=name, SEED=data.hex())
+            for cut in range(len(data)):
+                try:
+                    if not _judge(cls, data[:cut]):
+                        problems.append('%s: prefix of %d bytes of %s violates the %s clauses' % (
+                            name, cut, data.hex()[:60], P['MODE']))
+                        break
+                except api.Escaped as exc:
+                    problems.append('%s: %s escapes from %s for the %d-byte prefix of %s' % (
+                        name, exc.etype, exc.site_fn, cut, data.hex()[:60]))
+                    break
+            if len(problems) > 20:
+                break
+    P.clear()
+    P.update(saved)
+    return problems
+
+
 def unconstrained(data: bytes) -> bool:
     """post: _"""
     if len(data) > P['L']:
@@ -235,11 +271,9 @@ def window_shards(mode, tier, seed_value, per_seed=2, timeout=15, tag='w'):  # p
                         bounds='all 65536 values of bytes %d..%d of an accepted %d-byte vector' % (
                             pos, pos + 1, len(data)),
                         group='%s2/%s' % (tag, short)))
-            if mode in ('c02', 'c03') and (thorough or sidx == 0):
-                out.append(Shard(MOD, 'truncated', '%s-trunc/%s/s%d' % (tag, short, sidx),
-                                 {'MODE': mode, 'CLASS': name, 'SEED': data.hex()}, timeout=60,
-                                 bounds='every proper prefix of an accepted %d-byte vector (concrete)' % len(data),
-                                 group='%s-trunc/%s' % (tag, short)))
+    if mode in ('c02', 'c03'):
+        out.append(Shard(MOD, 'truncated_native', '%s-trunc' % tag, {'MODE': mode, 'TIER': tier}, kind='concrete',
+                         bounds='every proper prefix of the shortest accepted vector(s) of every seeded class (natively)'))
     return out
 
 
